@@ -162,6 +162,11 @@ int main(int argc, char* const* argv)
     Item privkey;
     secp256k1_keypair keypair;
     bech32_hrp = ca.m.count('p') ? ca.m['p'] : DEFAULT_ADDR_PREFIX;
+    for (char c : bech32_hrp) {
+        // bech32 human-readable parts are lower case printable ASCII (the encoder asserts on anything else)
+        if (c < 33 || c > 126 || (c >= 'A' && c <= 'Z')) abort("invalid address prefix: %s", bech32_hrp.c_str());
+    }
+    if (bech32_hrp.empty() || bech32_hrp.size() > 83) abort("invalid address prefix length");
 
     bool have_txs = false;
     if (ca.m.count('x') + ca.m.count('i') == 1) abort("provide either both --txin and --tx, or neither");
